@@ -254,6 +254,30 @@ def small_facet_worker(part, _):
     part.nontriv("small-facet")
 
 
+def duplicate_worker(part, _):
+    """
+    special values: a facet listed TWICE (the same normal and energy - what a symmetry expansion that does not filter duplicates hands
+    over), at the start, in the middle, at the end of the list; on a cube, a cuboctahedron, a generic body; also the same normal twice
+    with different energies (the farther plane is redundant).  The shape is that of the list without the repetition
+    """
+    bodies = {
+        "cube": ([unit(a) * s for a in ((1, 0, 0), (0, 1, 0), (0, 0, 1)) for s in (1, -1)], [1.0, 1.2, 0.9, 1.1, 1.3, 1.0]),
+        "cuboctahedron": ([unit(a) * s for a in ((1, 0, 0), (0, 1, 0), (0, 0, 1), (1, 1, 1), (1, 1, -1), (1, -1, 1), (-1, 1, 1)) for s in (1, -1)], [1.0] * 6 + [2.0 / np.sqrt(3.0)] * 8),
+        "generic": ([v * s for v in generic_pool(0)[:5] for s in (1, -1)], [1.0, 1.0, 1.3, 1.3, 1.0, 1.0, 1.6, 1.6, 1.2, 1.2]),
+    }
+    for bname, (bn, be) in bodies.items():
+        n = len(bn)
+        for which in (0, n // 2, n - 1):
+            for at in (0, 1, n // 2, n):
+                for de in (0.0, 0.5):
+                    normals = [np.asarray(x, dtype=float) for x in bn]
+                    energies = list(be)
+                    normals.insert(at, np.asarray(bn[which], dtype=float).copy())
+                    energies.insert(at, be[which] + de)
+                    check_shape(part, np.array(normals), np.array(energies), {"kind": "duplicate"}, "duplicate:%s:%s" % (bname, "equal" if de == 0 else "farther"), scale_test=False)
+    part.nontriv("duplicate")
+
+
 def minimal_worker(part, _):
     """
     the smallest bounded shapes (the statement covers any facet set that bounds a finite region; these lie below the 6-normal
@@ -280,6 +304,9 @@ def minimal_worker(part, _):
 def axis_worker(part, chunk, alphabet):
     if chunk and chunk[0] == "minimal":
         minimal_worker(part, None)
+        return
+    if chunk and chunk[0] == "duplicate":
+        duplicate_worker(part, None)
         return
     if chunk and chunk[0] == "small-facet":
         small_facet_worker(part, None)
@@ -351,7 +378,7 @@ def run(ctx):
             for ex in extras[1:]:
                 jobs.append((idx, assign, ex))
                 idx += 1
-    ctx.pmap(axis_worker, [["corner"], ["vicinal"], ["small-facet"], ["minimal"]] + list(chunked(jobs, max(1, len(jobs) // 256))), alphabet=alphabet)
+    ctx.pmap(axis_worker, [["corner"], ["vicinal"], ["small-facet"], ["minimal"], ["duplicate"]] + list(chunked(jobs, max(1, len(jobs) // 256))), alphabet=alphabet)
     gjobs = []
     idx = 0
     maxk = 12 if ctx.thorough else 7
@@ -384,6 +411,8 @@ def replay(ctx, case):
         small_facet_worker(ctx, None)
     elif k == "minimal":
         minimal_worker(ctx, None)
+    elif k == "duplicate":
+        duplicate_worker(ctx, None)
     elif k == "corner":
         corner_family_worker(ctx, None)
     elif k == "generic":
